@@ -391,7 +391,9 @@ func judge(s *Scenario, o *Obs) *verdict {
 			if orderBad != "" {
 				detail += "; also out of order: " + orderBad
 			}
-			if d18 {
+			if d18 && received == total && invented == 0 {
+				// D18's shape exactly: ≥2 receivers iterate over the channel, as many values were
+				// delivered as were sent, but some deliveries carry another delivery's value
 				v.add("chan-iter-multi-receiver:lost-or-duplicated", "%s", detail)
 			} else {
 				v.add("exactly-once:"+strings.Join(kinds, "+")+":recv="+rset+":cap="+capClass(cs.Cap), "%s", detail)
@@ -606,9 +608,6 @@ func drive(d *mon.Driver, replay string) int {
 		}
 	} else {
 		n := d.N(170, 10000)
-		if v, err := strconv.Atoi(os.Getenv("VERIF_C10_DEVN")); err == nil && v > 0 {
-			n = v // TEMP dev knob
-		}
 		r := d.Rand("scenarios")
 		for i := 0; i < n; i++ {
 			s := genScenario(r.SplitN(i), i, d.Thorough())
